@@ -302,9 +302,11 @@ def compare(cases, outs, res, reparse, streams=(0, 1, 2, 3)):
                 res.count('structure_preserved:inside-but-generator-spec-has-alternatives')
                 continue
             model = reader_tokens(proto.dec(ans))
-            real = G.coalesce(exp, cases[i]['strip'], cases[i]['method'])
+            # the Lean specification is exact about which runs strip_whitespace normalises (it follows the
+            # generated preserve table); the generator's skeleton leaves that open, as the oracle does
+            real = G.coalesce(exp)
             res.streams[stream] = res.streams.get(stream, 0) + 1
-            if model != real:
+            if not G.same_tokens(real, model, cases[i]['strip']):
                 res.disagreements.append({'stream': stream, 'case': cases[i], 'model': repr(model)[:600], 'real': repr(real)[:600]})
             continue
         try:
